@@ -165,7 +165,7 @@ class Gen:
         if k < 0.30:
             return AnyT()
         if k < 0.42:
-            c = r.choice(["list", "list", "seq", "coll", "mutseq", "blist", "vartuple"])
+            c = r.choice(["list", "list", "seq", "coll", "mutseq", "blist", "vartuple"] + (["deque", "deque"] if self.std else []))
             return Coll(c, self.type(depth + 1, scope))
         if k < 0.47:
             return Coll(r.choice(["set", "absset", "frozenset", "mutset"]), self.hashable(depth + 1))
